@@ -99,7 +99,7 @@ N4 = 16      # length-4 histories sampled per case in the thorough tier
 
 
 def trace_key(t):
-    return hashlib.sha1(json.dumps([t["cls"], t["P"], t["d"], t["roles"], t["fr"], t["cons"], t["lmis"]],
+    return hashlib.sha1(json.dumps([t["cls"], t["P"], t["d"], t["roles"], t["fr"], t["cons"], t["lmis"], t.get("events", [])],
                                    sort_keys=True).encode()).hexdigest()
 
 
@@ -110,7 +110,7 @@ def validate(res, tier, traces, wd):
     for s in range(0, len(traces), BATCH):
         chunk = traces[s:s + BATCH]
         path = os.path.join(wd, "traces_%d.ndjson" % s)
-        write_ndjson(path, [{k: t[k] for k in ("ci", "cls", "P", "d", "NP", "NE", "roles", "fr", "cons", "lmis")} for t in chunk])
+        write_ndjson(path, [{k: t[k] for k in ("ci", "cls", "P", "d", "NP", "NE", "roles", "fr", "cons", "lmis", "events")} for t in chunk])
         r = tlc("MembersTrace", cfg, os.path.join(wd, "trace"), env=dict(TRACE_FILE=path), timeout=3000)
         res.add_tlc("MembersTrace", r)
         cv = res.cov.setdefault("MembersTrace", {"MembersTrace.TInit": [0, 0], "MembersTrace.Step": [0, 0]})
